@@ -28,6 +28,17 @@ HARNESS = os.path.join(ROOT, "harness")
 REPO = os.environ.get("VERIF_REPO", "/repo")
 GUARD_CFG = "servlin_verif"
 
+# which parts of the source (as named in the problem texts of props/srcparams.py) each property's model depends on
+SRC_DEPS = {
+    "C01": ["src/head.rs"], "C02": ["src/head.rs"],
+    "C03": ["src/content_type.rs"],
+    "C04": ["src/util.rs", "src/http_conn.rs"], "C05": ["src/util.rs", "src/http_conn.rs"],
+    "C06": ["src/util.rs", "src/content_type.rs"], "C07": ["src/util.rs"], "C08": ["src/util.rs"],
+    "C09": ["src/util.rs", "src/http_conn.rs"], "C10": ["src/util.rs", "src/http_conn.rs"],
+    "C11": ["src/util.rs", "src/response.rs event_stream", "src/event.rs"],
+    "C16": ["src/time.rs"], "C18": ["src/log/logger.rs"],
+}
+
 ALLOWED_AXIOMS = set()  # names of standard-library axioms a property theorem may depend on (none needed so far)
 
 FORBIDDEN = re.compile(
@@ -534,12 +545,19 @@ def main_check(pid, argv):
     known_lines = []
     # 1. proof step
     pre_problems = list(mod.pre_proof()) if hasattr(mod, "pre_proof") else []
+    # the source translator (props/srcparams.py) regenerates Generated/SourceParams.v from the CURRENT tree on every
+    # run; what it cannot read is a broken tie for the properties whose models depend on that part of the source
+    import srcparams
+    for p in srcparams.pre_proof():
+        if any(k in p for k in SRC_DEPS.get(pid, [])):
+            pre_problems.append(p)
     if args.no_proof:
         proof = dict(ok=True, obligations=0, discharged=0, theorems=[], problems=[], log="", checker_cmd="skipped", wall=0)
     else:
         proof = proof_step(pid, thorough=(tier == "thorough"))
     if pre_problems:
         proof["problems"] = ["translator: " + p for p in pre_problems] + proof["problems"]
+        proof["discharged"] = 0
         proof["ok"] = False
     # 2-5. correspondence + oracle
     rng = random.Random(args.seed)
